@@ -66,6 +66,36 @@ fn check_u32(c: &SeqCase, obs: &mut Obs) -> Verdict {
     // reference D for Myers is the shortest script (it is what Myers reports, C03); to stay
     // independent of the run under test for the abort limit we use the trivial upper bound N+M
     let hard_limit = 64 * C_PATIENCE * (n + m + 1) * (n + m + 1);
+    // the buffers held OTHER content of the same length (same first and last item) in an earlier diff
+    // on this thread and were then edited in place: nothing remembered about them may be reused
+    let (mut oc, mut nc) = (oc, nc);
+    if c.old.len() >= 4 && c.new.len() >= 4 && c.old.len() + c.new.len() <= 8000 && (c.old.len() + c.new.len()) % 3 == 0 {
+        let (real_o, real_n) = (oc.clone(), nc.clone());
+        // every second interior item becomes one repeated value; each buffer is then diffed against
+        // an equal copy of itself (cheap), restored in place, and only then measured
+        for v in [&mut oc, &mut nc] {
+            let len = v.len();
+            for (i, x) in v.iter_mut().enumerate() {
+                if i % 2 == 1 && i + 1 < len {
+                    *x = Cnt(7_777_777);
+                }
+            }
+        }
+        let (co, cn) = (oc.clone(), nc.clone());
+        let _ = guard(|| {
+            let mut rec = Recorder::new();
+            let _ = algorithms::diff_slices(alg_of(alg), &mut rec, &co, &oc);
+            let mut rec = Recorder::new();
+            let _ = algorithms::diff_slices(alg_of(alg), &mut rec, &nc, &cn);
+        });
+        for (x, y) in oc.iter_mut().zip(real_o.iter()) {
+            *x = *y;
+        }
+        for (x, y) in nc.iter_mut().zip(real_n.iter()) {
+            *x = *y;
+        }
+        obs.class("buffers edited in place after an earlier diff");
+    }
     counting::reset();
     counting::set_limit(hard_limit);
     let r = guard(|| {
@@ -258,6 +288,20 @@ fn enum_large(tier: Tier, f: &mut dyn FnMut(SeqCase) -> bool) {
             }
         }
     }
+    // distinct items, sizes straddling a power of two (2^k - 1 items vs 2^k + 1: one inserted, one replaced)
+    for k in 8..=13u32 {
+        for alg in 0..2u8 {
+            let n = (1u32 << k) - 1;
+            let a: Vec<u32> = (0..n).collect();
+            let mut b = a.clone();
+            b.insert((n / 2) as usize, 7_000_000);
+            b.insert((n / 3) as usize, 7_000_001);
+            b[5] = 7_000_002;
+            if !f(SeqCase::full(alg, a, b)) {
+                return;
+            }
+        }
+    }
     // records: 2500 distinct fixed-width records, one edit
     for alg in 0..2u8 {
         let a: Vec<u32> = (0..2500u32).collect();
@@ -275,7 +319,7 @@ impl Prop for C19 {
     type Case = SeqCase;
     const ID: &'static str = "C19";
     fn rule() -> String {
-        "cases = (Myers|Patience, old, new) over an element type whose PartialEq counts calls; a stage of fixed inputs of 20 000-150 000 near-identical items; 1 random case in 10 uses 50-byte record items sharing a 40-byte head (so hashing/equality of long keys is exercised); families: near-identical (0-6 edits incl. block moves) up to 400 (quick) / 3000 (thorough) items over alphabets {2,4,26,10^3,10^5}, periodic with shift, reversed, truncated, unrelated, the shared small mixture, sequences in which every value occurs 1-3 times a few positions apart (interleaved copies), a block followed by the same values rearranged (second occurrences far away), and 1200-3200 (thorough: 9000-24000) items with 20-200 (400) scattered single-item edits on periodic or random content. Oracle: comparisons <= c*(N+M+1)*(D+1) with D = size of the reported script (Myers: the smaller of that and the shortest script by an independent LCS reference when N*M <= 10^6), c = 4 (Myers) / 6 (Patience); the counter aborts the run at 64x the largest possible bound so a quadratic or non-terminating change ends as a measured violation. The maximum measured ratio is reported under metrics_max. Non-trivial = N+M >= 200 and D <= (N+M)/20 (the near-linear claim); distinct = distinct serialized case.".into()
+        "cases = (Myers|Patience, old, new) over an element type whose PartialEq counts calls; a stage of fixed inputs of 20 000-150 000 near-identical items and of 2^k-1 vs 2^k+1 distinct items (k = 8..13); a third of the random cases are measured on buffers that held other content in an earlier diff and were edited in place; 1 random case in 10 uses 50-byte record items sharing a 40-byte head (so hashing/equality of long keys is exercised); families: near-identical (0-6 edits incl. block moves) up to 400 (quick) / 3000 (thorough) items over alphabets {2,4,26,10^3,10^5}, periodic with shift, reversed, truncated, unrelated, the shared small mixture, sequences in which every value occurs 1-3 times a few positions apart (interleaved copies), a block followed by the same values rearranged (second occurrences far away), and 1200-3200 (thorough: 9000-24000) items with 20-200 (400) scattered single-item edits on periodic or random content. Oracle: comparisons <= c*(N+M+1)*(D+1) with D = size of the reported script (Myers: the smaller of that and the shortest script by an independent LCS reference when N*M <= 10^6), c = 4 (Myers) / 6 (Patience); the counter aborts the run at 64x the largest possible bound so a quadratic or non-terminating change ends as a measured violation. The maximum measured ratio is reported under metrics_max. Non-trivial = N+M >= 200 and D <= (N+M)/20 (the near-linear claim); distinct = distinct serialized case.".into()
     }
     fn assumptions() -> Vec<String> {
         vec!["the constants are calibrated (measured maxima about 0.7 Myers / 1.6 Patience), not derived: the check decides 'within c x of the documented O((N+M)D)'".into()]
